@@ -2,7 +2,11 @@
 
 Theorems: lean/Goat/Props/C04.lean about lean/Goat/Model/Stream.lean (writer/reader handles of the memory
 and disk backends, the io.Copy loop with an arbitrary chunking oracle, fshelper.StreamCopy, fshelper.Copy
-over an arbitrary visiting order, fshelper.Copier.Do), for ALL fault plans.
+over an arbitrary visiting order, fshelper.Copier.Do), for ALL fault plans; and (Model/Stream.lean section 10,
+Props/C04 section 7) ONE memory file with an open reader next to a thread that rewrites the same file, under
+ALL schedules, with the locking discipline as a parameter: reader_isolated_from_rewrite,
+writer_waits_for_open_reader, streamCopy_source_rewritten for every discipline but snapshot + in-place truncation
+(the current memfs: a handle holds the file's lock from open to Close), snapshot_truncate_in_place_mixes for that one.
 
 Correspondence (every run): harness/cmd/stream `drive` — the real memfs / diskfs (temp dirs under /var/tmp) /
 encryptfs over memory and over disk / fscache over memory as source and destination, Writer/Reader,
@@ -10,7 +14,12 @@ fshelper.StreamCopy / Copy / Copier through a fault-injecting, chunk-limiting Fi
 the compiled model `m_stream` on
   (a) the corpus, (b) sharded random cases (`gen`), (c) fault-enumeration blocks: for a small case of each
   helper EVERY call index of every stage (0 .. number of calls, hard and short; a short writer Close loses the
-  last chunk — a backend that delivers its last bytes on Close).
+  last chunk — a backend that delivers its last bytes on Close), (d) open-reader blocks: `rdq` / `scopyq` — a
+  Reader (a StreamCopy's source reader) on mem / encmem / cache / rcache stays open while ANOTHER goroutine
+  rewrites the same file through Writer, started after `split` reads, for EVERY split of a small file; the
+  harness goes on when that goroutine has finished or is parked on the file's lock (the runtime's wait reason of
+  the goroutine; the yield point memfs.writer.open is recorded), and the result line carries whether the
+  rewriter was held up (`wait`) or not (`free`), every buffer the reader delivered and the final content.
 Each line is one self-contained case (fresh filesystems), so a disagreeing line is its own minimal history;
 its trees and contents are then shrunk (ddmin over tree entries).
 Spec vs implementation without the Lean model: `stream oracle` evaluates the property's clauses on the
@@ -18,7 +27,10 @@ implementation with expectations known by construction from the case line (write
 every buffer size in {1,2,3,7,4096} equal the chunks' concatenation for absent/shorter/longer/equal/empty old
 content, a directory is refused; copy helper returned nil => destination equals the source laid over the old
 destination, byte for byte, source untouched; under every single injected fault: error or complete copy; a
-fault-free copy between compatible trees succeeds; no panic, no hang).
+fault-free copy between compatible trees succeeds; a reader that is open while its file is rewritten delivers a
+prefix of — at EOF exactly — the content it was opened on, the file holds the new chunks' concatenation after both
+have closed, a StreamCopy whose source is rewritten meanwhile leaves a complete copy of the old or of the new
+content; no panic, no hang).
 
 Structural tie (every run, DESIGN 1.4): `harness/cmd/fsfacts facts C04` (go/ast) rewrites
 lean/Goat/Tie/ExtractedFSC04.lean from the sources under test — the whole canonical bodies of fshelper.StreamCopy,
@@ -51,9 +63,20 @@ META = dict(
              "any stage and index; a single injected fault is a special case): writer_exact, writer_replaces, "
              "reader_exact, ioCopy_exact, ioCopy_ok_complete, streamCopy_exact, streamCopy_ok_complete, "
              "treeCopy_ok_complete / treeCopy_exact / treeCopy_fault (ok => destination = source laid over the old "
-             "destination, nothing outside changes), copier_exact.  The model is tied to /repo on every run by a "
-             "differential over five backends as source and destination, random trees and chunkings, and an "
-             "enumeration of every fault position for small cases, and by a structural tie: go/ast normal forms of "
+             "destination, nothing outside changes), copier_exact.  Open handles on one memory file (an open reader "
+             "next to a thread rewriting the same file through Writer/Write*/Close; all old and new contents, array "
+             "capacities, chunkings, buffer sizes and ALL schedules = any number of rewriter steps before the open, "
+             "before every Read and before the Close, a thread that needs the lock waits; the locking discipline is a "
+             "parameter): reader_isolated_from_rewrite (for every discipline except snapshot + in-place truncation — "
+             "in particular the current memfs, whose handles hold the file's lock from open to Close — the reads are "
+             "exactly the sequential reads of the content the file had at the open, old or new, whole; afterwards the "
+             "file holds the chunks' concatenation; nobody hangs), writer_waits_for_open_reader, "
+             "streamCopy_source_rewritten (under every fault plan the helper's outcome IS the sequential StreamCopy of "
+             "the old or of the new content: never a mix), snapshot_truncate_in_place_mixes (evaluated witness for the "
+             "excluded discipline: new bytes followed by the old tail; StreamCopy returns nil on it).  The model is tied to /repo on every run by a "
+             "differential over five backends as source and destination, random trees and chunkings, an "
+             "enumeration of every fault position for small cases and of every point at which a rewrite can start "
+             "next to an open reader (two goroutines, steered by the runtime's goroutine wait state), and by a structural tie: go/ast normal forms of "
              "StreamCopy (reader, writer, io.Copy, both Close calls in order; the io.Copy error and both Close errors "
              "returned), Copier.copyFile (the same function), Copy (OnDir = MkdirAll, OnFile = MkdirAll(dir) + "
              "StreamCopy for every file, one consumer, result = ToError(Errors()) after Wait), Copier.Do's dispatch, the "
@@ -71,10 +94,18 @@ META = dict(
                "them by C01's theorems; for diskfs that is C02's assumption). That the walk hands every node of the "
                "source to exactly one callback, one callback at a time (Consumers: 1), and lists every error, is "
                "C08's theorem and enters as the hypothesis `order.Perm (nodesOf t)`; the source tree has unique "
-               "sibling names (C01's invariant).",
+               "sibling names (C01's invariant). "
+               "Open reader next to a rewrite: the model interleaves whole Read/Write/open/Close calls of ONE reader and "
+               "ONE rewriting thread on ONE memory file (Go's slice aliasing modelled by detaching a sharing reader when "
+               "the file gets a new array); which discipline a backend has is hand-assigned in the driver (mem, cache "
+               "buffer: lock; encmem, cache-remote: private copy) and checked by the `wait`/`free` token of the "
+               "differential; diskfs has no handle lock (the operating system's semantics of an open file apply) and "
+               "is outside this family.",
     technique="Lean 4 proof (induction over chunk lists / fuel / visiting order; progress-towards-overlay invariant) "
               "+ structural tie (go/ast normal forms of the copy helpers and stream handles vs hand-written expectations, "
-              "`decide`) + differential correspondence with fault-position enumeration + implementation-only oracle",
+              "`decide`) + small-step two-thread model of a memory file's handles with ALL schedules (simulation of the "
+              "copy loop over an abstract reader) + differential correspondence with fault-position enumeration and "
+              "two-goroutine open-reader/rewrite cases gated by the goroutine wait state + implementation-only oracle",
 )
 
 NSHARDS = 16
@@ -300,7 +331,11 @@ def _run(ctx):
     o_blocks = ctx.pick(2, 10)
     ctx.rule = ("each case is one line with fresh filesystems.  random: %d cases over 16 shards from VERIF_SEED — wr "
                 "(Writer over absent/file/dir/no-parent, 0..5 chunks), wrq (a Writer or a StreamCopy queued behind an open "
-                "Writer on the same path of a memory-like backend, gated by the yield point memfs.writer.open), rd (Reader, "
+                "Writer on the same path of a memory-like backend, gated by the yield point memfs.writer.open), rdq / scopyq (a "
+                "Reader / the source reader of a StreamCopy on mem|encmem|cache|rcache stays open while another goroutine, "
+                "started after 0..n reads, rewrites the same file through Writer with chunks shorter than / as long as / "
+                "longer than the old content; the harness continues once that goroutine has finished or is parked on the "
+                "file's lock), rd (Reader, "
                 "0..8 buffer sizes incl. 0 and 40000), "
                 "scopy/tcopy/copier (fshelper.StreamCopy/Copy/Copier.Do) over source and destination backends "
                 "{mem,disk,encmem,encdisk,cache}^2, trees of 0..30 nodes (names a-d, depth<=4, contents 0 B..70 kB), "
@@ -308,10 +343,14 @@ def _run(ctx):
                 "plus unrelated nodes), chunkings raw | - | 1..6 sizes of {1,2,3,7,4096}, 30%% with a random single "
                 "fault; fault blocks: %d per shard, each enumerating for one small case per helper EVERY call index "
                 "(0..number of calls, the last not firing) of every stage it reaches, hard and (read / write / writer-Close "
-                "that loses its last chunk) short.  non-trivial = a writer over something existing or with >=2 chunks, a "
+                "that loses its last chunk) short; open-reader blocks: %d per shard, each enumerating for one file of "
+                "6..10 bytes EVERY start point of the rewrite (before read 0..4 and before Close) x 4 backends x 3 rewrites "
+                "(fits / equal / outgrows the old array) for a Reader and 5 start points x 4 backends for StreamCopy.  "
+                "non-trivial = a writer over something existing or with >=2 chunks, a "
                 "queued writer where both streams write, a reader with >=2 reads of a non-empty file, a copy of a "
-                "non-empty source; distinct = distinct case lines (64-bit digest)"
-                % (n_rand, n_blocks))
+                "non-empty source, an open reader (copy) of a non-empty file next to a non-empty rewrite; "
+                "distinct = distinct case lines (64-bit digest)"
+                % (n_rand, n_blocks, n_blocks))
     concrete_found = False
     try:
         # --- corpus
@@ -383,12 +422,21 @@ def _run(ctx):
         enumerated_in_blocks=gen_counts.get("faultpos", 0), blocks=gen_counts.get("faultblock", 0),
         with_fault_total=faults.get("positions", 0), by_outcome=faults, by_stage=stages)
     ctx.extra["backend_pairs"] = pairs
+    ctx.extra["open_reader_rewrite"] = dict(
+        start_points_enumerated_in_blocks=gen_counts.get("queuepos", 0), blocks=gen_counts.get("queueblock", 0),
+        rewriter_held_up={k: ctx.histogram.get(k, 0) for k in ("rdq-sched:wait", "rdq-sched:free", "rdq-sched:stuck",
+                                                               "scopyq-sched:wait", "scopyq-sched:free",
+                                                               "scopyq-sched:stuck")},
+        by_backend={k: v for k, v in ctx.histogram.items() if k.startswith("qbackend:")},
+        yield_point_memfs_writer_open_reached=ctx.histogram.get("rdq-hook:memfs.writer.open", 0))
     ctx.extra["differential_lines"] = lines
     ctx.exhaustive = False
     missing = [a + ">" + b for a in ("mem", "disk", "encmem", "encdisk", "cache")
                for b in ("mem", "disk", "encmem", "encdisk", "cache") if not pairs.get(a + ">" + b)]
     gaps = ["pair " + m for m in missing]
-    for key in ("wr:ok", "wr:err", "wrq:ok", "wrq:err", "rd:rd", "scopy:ok", "scopy:err", "tcopy:ok", "tcopy:err", "copier:ok", "copier:err",
+    for key in ("wr:ok", "wr:err", "wrq:ok", "wrq:err", "rdq:ok", "scopyq:ok", "rdq-sched:wait", "rdq-sched:free",
+                "scopyq-sched:wait", "scopyq-sched:free", "qbackend:mem", "qbackend:encmem", "qbackend:cache",
+                "qbackend:rcache", "rd:rd", "scopy:ok", "scopy:err", "tcopy:ok", "tcopy:err", "copier:ok", "copier:err",
                 "chunking:raw", "wr-old:dir:err", "wr-old:file:ok", "wr-old:noparent:ok", "wr-old:noparent:err"):
         if not ctx.histogram.get(key):
             gaps.append(key)
@@ -399,6 +447,10 @@ def _run(ctx):
     if faults.get("fired_ok"):
         ctx.notes.append("%d injected faults fired and the helper still returned nil with a complete copy "
                          "(allowed by the property; the model agrees on each)" % faults["fired_ok"])
+    n_stuck = ctx.histogram.get("rdq-sched:stuck", 0) + ctx.histogram.get("scopyq-sched:stuck", 0)
+    if n_stuck:
+        ctx.notes.append("%d open-reader cases in which the rewriting goroutine neither finished nor parked on a lock "
+                         "within 20 s" % n_stuck)
     if gaps:
         ctx.notes.append("coverage gap: no case of " + ", ".join(gaps))
     for bad in ("panic", "hang", "setup-err"):
@@ -422,8 +474,15 @@ def _run(ctx):
         "an injected Close failure has closed the underlying stream (the decorator calls it first); the decorated "
         "writer is write-behind by one chunk, so that a `short` Close fault is a Close that fails to deliver its last "
         "bytes (diskfs syncs, the encrypting writer seals and writes, on Close)",
-        "overlapping stream handles on one path are exercised only as `a second stream queued behind an open writer` on "
-        "the backends that serialise them (memfs and what is built on it); the model runs the two one after the other",
+        "overlapping stream handles on one path are exercised as `a second stream queued behind an open writer` (the "
+        "model runs the two one after the other) and as `a reader that stays open while another goroutine rewrites the "
+        "same file` (rdq / scopyq; the model interleaves the two threads step by step) on the backends whose streams "
+        "are memfs handles: mem, encmem, cache with the file in its buffer or in its remote memfs.  diskfs / encdisk "
+        "have no handle lock — an open *os.File next to O_TRUNC + writes of the same file follows the operating "
+        "system's semantics, about which the property says nothing — and are not part of that family",
+        "whether the rewriting goroutine is held up is read off the Go runtime's wait reason of that goroutine "
+        "(sync.Mutex.Lock / sync.RWMutex.Lock / semacquire, observed twice 0.3 ms apart) after it has been started: only "
+        "ever waited for, up to 20 s; one reader and one rewriter per case",
         "path names are plain [a-z0-9]+ segments (spellings are C01/C03's subject)",
     ]
     ctx.trusted_base.append("the harness's fault-injecting Filespace decorator and its reference expectation "
